@@ -218,6 +218,8 @@ def run(tier='quick'):
         shape(chk, B1, maps)
         fm = field_maps(maps, table, record)
         cf = agreement(chk, B2, fm, table, cls)
+        from . import c01 as _c01
+        _c01.range_copy_agreement(chk, B2, maps)
         col_of_field[cls] = cf
         resolve(chk, B3, maps, order, cats, lo2, hi2)
 
